@@ -729,6 +729,9 @@ func (fr *Frame) loopSteps(li *loopInfo) []*Clause {
 func (fr *Frame) modifiedInLoop(li *loopInfo) ([]string, bool) {
 	ex := fr.ex
 	set := map[string]bool{}
+	// real: components written at objects that may be older than the loop (the others are only written at
+	// objects the loop body itself allocates: composite literals, make, append, loop variables)
+	real := map[string]bool{}
 	all := false
 	var scanFn func(fn *ssa.Function, blocks map[*ssa.BasicBlock]bool, depth int)
 	addrComp := func(v ssa.Value) []string { return ex.staticComps(v) }
@@ -746,8 +749,13 @@ func (fr *Frame) modifiedInLoop(li *loopInfo) ([]string, bool) {
 						}
 						continue
 					}
+					root := heapAllocRoot(x.Addr)
+					fresh := root != nil && (blocks == nil || blocks[root.Block()])
 					for _, c := range addrComp(x.Addr) {
 						set[c] = true
+						if !fresh {
+							real[c] = true
+						}
 					}
 				case *ssa.Alloc:
 					if !x.Heap {
@@ -764,6 +772,7 @@ func (fr *Frame) modifiedInLoop(li *loopInfo) ([]string, bool) {
 					mt := types.Unalias(x.Map.Type()).Underlying().(*types.Map)
 					h, v, l, _, _ := ex.mapComps(mt)
 					set[h], set[v], set[l] = true, true, true
+					real[h], real[v], real[l] = true, true, true
 				case *ssa.MakeMap:
 					mt := types.Unalias(x.Type()).Underlying().(*types.Map)
 					h, v, l, _, _ := ex.mapComps(mt)
@@ -806,11 +815,15 @@ func (fr *Frame) modifiedInLoop(li *loopInfo) ([]string, bool) {
 						case "append", "copy":
 							if sl, ok := types.Unalias(cc.Args[0].Type()).Underlying().(*types.Slice); ok {
 								set[ex.eComp(sl.Elem())] = true
+								if bi.Name() == "copy" {
+									real[ex.eComp(sl.Elem())] = true
+								}
 							}
 						case "delete":
 							mt := types.Unalias(cc.Args[0].Type()).Underlying().(*types.Map)
 							h, v, l, _, _ := ex.mapComps(mt)
 							set[h], set[v], set[l] = true, true, true
+							real[h], real[v], real[l] = true, true, true
 						case "clear":
 							all = true
 							if debugOn {
@@ -824,6 +837,7 @@ func (fr *Frame) modifiedInLoop(li *loopInfo) ([]string, bool) {
 						if libModel(ex, "iface:"+key) != nil || pureIface(key) {
 							for _, c := range libAssigns("iface:" + key) {
 								set[c] = true
+								real[c] = true
 							}
 							continue
 						}
@@ -834,6 +848,7 @@ func (fr *Frame) modifiedInLoop(li *loopInfo) ([]string, bool) {
 							if ct.HasAssigns {
 								for _, a := range ct.Assigns {
 									set[a] = true
+									real[a] = true
 								}
 								continue
 							}
@@ -876,11 +891,13 @@ func (fr *Frame) modifiedInLoop(li *loopInfo) ([]string, bool) {
 							} else {
 								for _, c := range addrComp(cc.Args[0]) {
 									set[c] = true
+									real[c] = true
 								}
 							}
 						}
 						for _, c := range libAssigns(name) {
 							set[c] = true
+							real[c] = true
 						}
 						continue
 					}
@@ -895,6 +912,7 @@ func (fr *Frame) modifiedInLoop(li *loopInfo) ([]string, bool) {
 						if ct.HasAssigns {
 							for _, a := range ct.Assigns {
 								set[a] = true
+								real[a] = true
 							}
 							set["world"] = true
 							continue
@@ -923,6 +941,11 @@ func (fr *Frame) modifiedInLoop(li *loopInfo) ([]string, bool) {
 	}
 	var out []string
 	for k := range set {
+		// written only at objects allocated by the loop body and never touched before the loop: no object older
+		// than the loop changes, and nothing is known about the component yet - leave it alone
+		if _, known := ex.compSort[k]; !known && !real[k] && !strings.HasPrefix(k, "L.") && !strings.HasPrefix(k, "IT.") && !strings.HasSuffix(k, "*") && k != "world" {
+			continue
+		}
 		out = append(out, k)
 	}
 	sort.Strings(out)
